@@ -156,12 +156,22 @@ class Tok(HTMLParser):
     def __init__(self):
         HTMLParser.__init__(self, convert_charrefs=True)
         self.tags, self.text = [], []
+        self.cells, self._cell = [], None        # the text of every table cell (td / th), one entry per cell
 
     def handle_starttag(self, tag, attrs):
         self.tags.append(tag)
+        if tag in ('td', 'th'):
+            self._cell = []
+
+    def handle_endtag(self, tag):
+        if tag in ('td', 'th') and self._cell is not None:
+            self.cells.append(''.join(self._cell))
+            self._cell = None
 
     def handle_data(self, d):
         self.text.append(d)
+        if self._cell is not None:
+            self._cell.append(d)
 
 
 _state = {'value': None}
@@ -321,7 +331,9 @@ def tabular(rng):
     if shape == 'empty':
         # degenerate tables: nothing to show is still something to render
         return shape, rng.pick([[], (), {}, [{}], [[]], [()], [{}, {}]])
-    cell = lambda: rng.pick(['x', 'a<b', 'q&r', 'caf\xe9', 7, 2.5, 'longer text here', True, '"quoted"', "it's"])
+    cell = lambda: rng.pick(['x', 'a<b', 'q&r', 'caf\xe9', 7, 2.5, 'longer text here', True, '"quoted"', "it's",
+                             # data that looks like something a page might want to decorate: host names, addresses, paths
+                             'www.example.com', 'www.x.org/a?b=1', 'user@example.com', 'example.com/path', '#1234', '@handle'])
     if shape == 'flat-mapping':
         return shape, dict((k, cell()) for k in rng.sample(['alpha', 'beta', 'g<amma', 'd&elta', 'é'], rng.randint(1, 4)))
     if shape == 'scalars':
@@ -408,6 +420,14 @@ def judge_basic_container(sh, rng):
         if 'table' not in t.tags:
             sh.violation('C17/html-without-table', 'render_basic(%s) as HTML has no table element (tags %r)' % (short(v), t.tags[:12]), case)
             return
+        # a cell shows its value - nothing put before or after it inside the same word
+        shown = [x.strip() for x in t.cells]
+        altered = [(c, [x for x in shown if c in x][:1]) for c in cells_of(v) if isinstance(c, str) and c and ' ' not in c and '.' in c and c not in shown]
+        if altered and t.cells:
+            sh.violation('C17/html-table-cell-altered', 'render_basic(%s) as HTML has no cell that reads %r (a cell reads %r)' % (short(v), altered[0][0], altered[0][1]), case)
+            return
+        if t.cells:
+            sh.hit('basic:table-cells-read')
         missing = [c for c in cells_of(v) if str(c) not in text]
         if missing:
             sh.violation('C17/html-table-missing-cells', 'render_basic(%s) as HTML lacks the cell texts %r' % (short(v), missing[:4]), case)
